@@ -278,3 +278,93 @@ func Verif_C11_copy_graph() {
 }
 
 var _ = io.EOF
+
+// Verif_C11_encrypted_copy: a real source file and a real target file with
+// solver-chosen, different encryption (none, RC4-128, AES-128, AES-256):
+// strings, nested strings and stream data copied from one to the other read
+// back equal.
+func Verif_C11_encrypted_copy() {
+	defer verifFixRand()()
+	verifrt.Unwind(40000)
+	type cfg struct {
+		v  Version
+		pw string
+	}
+	cfgs := []cfg{{V1_7, ""}, {V1_4, "src"}, {V1_7, "src"}, {V2_0, "src"}}
+	sc := cfgs[verifrt.Choice("source", len(cfgs))]
+	tc := cfgs[verifrt.Choice("target", len(cfgs))]
+	// source
+	var sbuf bytes.Buffer
+	sw, err := NewWriter(&sbuf, sc.v, &WriterOptions{UserPassword: sc.pw, ID: [][]byte{[]byte("0123456789abcdef"), []byte("0123456789abcdef")}})
+	verifrt.Assert(err == nil, "source writer")
+	if err != nil {
+		return
+	}
+	secret := []byte("sixteen bytes..!+")
+	body := []byte("stream data with a secret\n")
+	leaf := sw.Alloc()
+	verifrt.Assert(sw.Put(leaf, Dict{"S": String(secret)}) == nil, "Put")
+	stm := sw.Alloc()
+	ws, err := sw.OpenStream(stm, Dict{"T": String(secret), "Leaf": leaf}, FilterASCIIHex{})
+	verifrt.Assert(err == nil, "OpenStream")
+	ws.Write(body)
+	verifrt.Assert(ws.Close() == nil, "stream closes")
+	root := sw.Alloc()
+	verifrt.Assert(sw.Put(root, Array{String(secret), stm, leaf}) == nil, "Put")
+	sw.GetMeta().Catalog.Pages = sw.Alloc()
+	verifrt.Assert(sw.Close() == nil, "source closes")
+	src, err := NewReader(bytes.NewReader(sbuf.Bytes()), int64(sbuf.Len()), &ReaderOptions{Password: sc.pw})
+	verifrt.Assert(err == nil, "source opens")
+	if err != nil {
+		return
+	}
+	// target
+	var tbuf bytes.Buffer
+	tpw := ""
+	if tc.pw != "" {
+		tpw = "tgt"
+	}
+	tw, err := NewWriter(&tbuf, tc.v, &WriterOptions{UserPassword: tpw, ID: [][]byte{[]byte("fedcba9876543210"), []byte("fedcba9876543210")}})
+	verifrt.Assert(err == nil, "target writer")
+	if err != nil {
+		return
+	}
+	c := NewCopier(tw, src)
+	newRoot, err := c.CopyReference(root)
+	verifrt.Assert(err == nil, "copy succeeds")
+	tw.GetMeta().Catalog.Pages = tw.Alloc()
+	verifrt.Assert(tw.Close() == nil, "target closes")
+	dst, err := NewReader(bytes.NewReader(tbuf.Bytes()), int64(tbuf.Len()), &ReaderOptions{Password: tpw})
+	verifrt.Assert(err == nil, "target opens")
+	if err != nil {
+		return
+	}
+	verifrt.Cover("copied")
+	obj, err := dst.Get(newRoot, true)
+	arr, _ := obj.(Array)
+	verifrt.Assert(err == nil && len(arr) == 3, "root array copied")
+	if len(arr) != 3 {
+		return
+	}
+	s0, _ := arr[0].(String)
+	verifrt.Assert(bytes.Equal(s0, secret), "string copied")
+	so, err := Resolve(dst, arr[1])
+	st, isStm := so.(*Stream)
+	verifrt.Assert(err == nil && isStm, "stream copied")
+	if isStm {
+		t, _ := st.Dict["T"].(String)
+		verifrt.Assert(bytes.Equal(t, secret), "string in the stream dictionary copied")
+		rd, err := DecodeStream(dst, nil, st)
+		verifrt.Assert(err == nil, "DecodeStream succeeds")
+		if err == nil {
+			data, rerr, _ := verifrt.ReadAll(rd, 256, 8)
+			verifrt.Assert(rerr == io.EOF && bytes.Equal(data, body), "stream data copied")
+		}
+		lo, _ := Resolve(dst, st.Dict["Leaf"])
+		ld, _ := lo.(Dict)
+		ls, _ := ld["S"].(String)
+		verifrt.Assert(bytes.Equal(ls, secret), "string behind the stream dictionary copied")
+		// the leaf is shared between the array and the stream dictionary
+		verifrt.Assert(st.Dict["Leaf"] == arr[2], "shared object stays shared")
+	}
+}
